@@ -59,11 +59,17 @@ Q = {
 FAMILY = {k: v[0] for k, v in Q.items()}
 
 
+def world_points(world):
+    """the coordinates as the mesh gets them: the generated shape times the world's scale (a cube of side 1e-4 is a mesh all the same)"""
+    k = world.get("scale", 1.0)
+    return [[k * x for x in p] for p in world["points"]]
+
+
 def build_mesh(world):
     import mouette as M
     from mouette.mesh.mesh_data import RawMeshData
     data = RawMeshData()
-    data.vertices += [list(p) for p in world["points"]]
+    data.vertices += world_points(world)
     fl = world.get("flavour", "list")
     if world.get("declared"):
         # (some of) the triangles are listed explicitly next to the cells, with a winding of the file's choosing (medit / .tet files do)
@@ -109,7 +115,7 @@ class C03(Sim):
             "order of the lazy caches); non-trivial = >= 3 judged queries from >= 2 families")
     FAULT_KINDS = ["cache_drop", "bad_index"]
     PROBES = ["interior_edge_ring", "border_edge_ring", "sort_off", "query_after_drop", "miss_query", "interior_vertex", "boundary_extracted",
-              "standalone_extracted", "standalone_outward_checked", "mixed_orientation", "fresh_single_query", "reordered_pass", "second_volume", "declared_triangles"]
+              "standalone_extracted", "standalone_outward_checked", "mixed_orientation", "fresh_single_query", "reordered_pass", "second_volume", "declared_triangles", "tiny_geometry"]
     QUICK_RUNS = 3000
     THOROUGH_RUNS = 300000
     BLOCK = 25
@@ -153,7 +159,8 @@ class C03(Sim):
                 t = list(t)
                 dr.shuffle(t)  # any winding, any first vertex
                 declared.append(t)
-        return {"world": {"points": pts, "cells": cells, "orient": mode, "declared": declared, "flavour": rng.wchoice(["list", "tuple", "numpy"], [3, 1, 1])}, "world2": world2, "sort": rng.chance(0.8), "clients": cl,
+        scale = rng.wchoice([1.0, 1e-4, 1e-2, 1e3], [6, 1.5, 1, 1])  # absolute size of the geometry: orientation tests must not depend on it
+        return {"world": {"points": pts, "cells": cells, "orient": mode, "scale": scale, "declared": declared, "flavour": rng.wchoice(["list", "tuple", "numpy"], [3, 1, 1])}, "world2": world2, "sort": rng.chance(0.8), "clients": cl,
                 "max_steps": rng.randint(5, 35 if tier == "quick" else 70), "burst": rng.choice([0.2, 0.5, 0.8]),
                 "miss_rate": rng.choice([0.1, 0.3]), "drop_rate": rng.choice([0.05, 0.15, 0.3]),
                 "ops_off": rng.subset(sorted(Q), 0.15), "n_fresh": rng.randint(1, 5)}
@@ -168,7 +175,7 @@ class C03(Sim):
         if cfg.get("world2"):
             self.other = build_mesh(cfg["world2"])
             w2 = cfg["world2"]
-            self.ref_other = RefVolume(w2["points"], w2["cells"], [list(f) for f in self.other.faces], [tuple(e) for e in self.other.edges])
+            self.ref_other = RefVolume(world_points(w2), w2["cells"], [list(f) for f in self.other.faces], [tuple(e) for e in self.other.edges])
         self._check_lists()
         self.judged, self.fams, self.first_touch = [], set(), []
         self.dropped = False
@@ -179,6 +186,8 @@ class C03(Sim):
             self.probes["mixed_orientation"] += 1
         if cfg["world"].get("declared"):
             self.probes["declared_triangles"] += 1
+        if cfg["world"].get("scale", 1.0) < 1e-3:
+            self.probes["tiny_geometry"] += 1
         bk = r.border_edge_keys()
         self.border_e = sorted(r.eid[k] for k in bk)
         self.interior_e = sorted(set(range(len(r.edges))) - set(self.border_e))
@@ -188,7 +197,7 @@ class C03(Sim):
 
     def _ref_for(self, mesh):
         w = self.cfg["world"]
-        return RefVolume(w["points"], w["cells"], [list(f) for f in mesh.faces], [tuple(e) for e in mesh.edges])
+        return RefVolume(world_points(w), w["cells"], [list(f) for f in mesh.faces], [tuple(e) for e in mesh.edges])
 
     def _check_lists(self):
         """face / edge identifiers index the mesh's own lists: these must hold every triangle / edge of the cells exactly once"""
@@ -379,10 +388,12 @@ class C03(Sim):
                     self.violation("boundary-outward", op, "wrong_value", "orientation", self.cfg["world"]["orient"],
                                    "boundary face %r (volume ids %r) points towards the opposite vertex %d of its cell %d" % (f, vf, opp, cell))
 
-    def _do_enable(self, mesh, ref, op):
-        o = call(mesh.enable_boundary_connectivity)
-        if not o.ok:
-            self.exc_violation("boundary-extraction", op, o)
+    def _do_enable(self, mesh, ref, op, call_enable=True):
+        """call_enable=False: judge the boundary data the volume ALREADY carries (left by an earlier enable_boundary_connectivity())"""
+        if call_enable:
+            o = call(mesh.enable_boundary_connectivity)
+            if not o.ok:
+                self.exc_violation("boundary-extraction", op, o)
         bc = mesh.boundary_connectivity
         surf = mesh.boundary_mesh
         if surf is None:
